@@ -250,16 +250,22 @@ def num_expr(draw, ctx, depth=None, kind="any", symbolic=None):
         if i:
             ops.append(draw(st.sampled_from(["+", "-", "*", "/", "**", "*", "+"])))
         prev = ops[-1] if ops else None
-        operands.append(draw(_num_operand(ctx, depth, kind, symbolic, prev)))
+        base_pos = bool(operands) and operands[-1].signs.count("-") % 2 == 0 and isinstance(operands[-1].prim, A.Num) \
+            and operands[-1].prim.kind in ("int", "float", "pi") and (len(ops) < 2 or ops[-2] != "**")
+        operands.append(draw(_num_operand(ctx, depth, kind, symbolic, prev, base_pos)))
     return A.Flat(operands, ops)
 
 
 @st.composite
-def _num_operand(draw, ctx, depth, kind, symbolic, prev_op):
+def _num_operand(draw, ctx, depth, kind, symbolic, prev_op, base_positive_literal=False):
     signs = draw(st.sampled_from(["", "", "", "", "", "-", "+", "--"]))
     if prev_op == "**":
-        # keep powers tame: small literal exponents (optionally signed / bracketed)
-        e = draw(st.sampled_from(["0", "1", "2", "3", "2", "3", "2.0", "0.5", "1.5"]))
+        # keep powers tame: small literal exponents (optionally signed / bracketed); fractional exponents mostly
+        # on positive literal bases (a negative base with a fractional exponent is outside the real domain)
+        pool = ["1", "2", "3", "2", "3", "2.0"] + ([] if symbolic else ["0"])
+        if base_positive_literal or draw(st.integers(0, 7)) == 0:
+            pool = pool + ["0.5", "1.5", "0.5"]
+        e = draw(st.sampled_from(pool))
         kind_ = "int" if e.isdigit() else "float"
         s = draw(st.sampled_from(["", "", "", "", "", "", "", "-"] if kind_ == "int" else ["", "", "", "-"]))
         return A.Operand(s, A.Num(kind_, e))
@@ -299,6 +305,8 @@ def _num_operand(draw, ctx, depth, kind, symbolic, prev_op):
     if k == "int":
         if not symbolic and draw(st.integers(0, 11)) == 0:
             return A.Operand(signs, draw(num_int(small=False)))      # up to 2**62: beyond the 2**53 float-exact range
+        if symbolic:
+            return A.Operand(signs, A.Num("int", str(draw(st.integers(1, 9)))))   # (a literal 0 factor cancels the symbols)
         return A.Operand(signs, draw(num_int()))
     if k == "float":
         if not symbolic and draw(st.integers(0, 11)) == 0:
@@ -328,7 +336,13 @@ def _num_operand(draw, ctx, depth, kind, symbolic, prev_op):
     fam = draw(st.sampled_from(["any", "any", "unit", "pos"]))
     if fam == "any":
         fn = draw(st.sampled_from(_REAL_FUNCS_ANY))
-        arg = draw(num_expr(ctx, depth - 1, "real", None))
+        if fn in ("exp", "sinh", "cosh"):
+            # (arguments of moderate size: exp overflows beyond ~709)
+            arg = F1(A.Num("float", "%d.%d" % (draw(st.integers(0, 9)), draw(st.integers(0, 999)))), draw(st.sampled_from(["", "-"])))
+            if ctx.real_leaf_names() and draw(st.integers(0, 2)) == 0:
+                arg = A.Flat([A.Operand("", A.Num("float", "0.01")), A.Operand("", A.Var(draw(st.sampled_from(ctx.real_leaf_names()))))], ["*"])
+        else:
+            arg = draw(num_expr(ctx, depth - 1, "real", None))
     elif fam == "unit":
         fn = draw(st.sampled_from(_REAL_FUNCS_UNIT))
         t = "0." + draw(st.text(alphabet=_DIG, min_size=1, max_size=3))
